@@ -52,9 +52,32 @@ type mergeLoop struct {
 	AtomDes []string
 	ResPhi  *ssa.Phi // slice accumulator at the header
 	OkPhi   *ssa.Phi // bool accumulator at the header
+	Negated []ssa.Value // atoms whose condition value is the negation of the named atom
 }
 
 func findMergeLoops(fn *ssa.Function, wcf map[*ssa.Function]bool) ([]*mergeLoop, string) {
+	return findAccLoops(fn, func(c ssa.Value) string {
+		switch x := c.(type) {
+		case *ssa.Extract:
+			if lk, ok := x.Tuple.(*ssa.Lookup); ok && lk.CommaOk && x.Index == 1 {
+				return "found"
+			}
+		case *ssa.Call:
+			if callee := x.Call.StaticCallee(); callee != nil && (wcf[callee] || wcf[originOf(callee)]) {
+				return "changeable"
+			}
+		case *ssa.Parameter:
+			if isBoolType(x.Type()) {
+				return "remote"
+			}
+		}
+		return ""
+	})
+}
+
+// findAccLoops finds the loops of fn with their accumulators and classifies the
+// branch conditions inside them with the given function ("" = unknown).
+func findAccLoops(fn *ssa.Function, classify func(c ssa.Value) string) ([]*mergeLoop, string) {
 	var loops []*mergeLoop
 	for _, h := range fn.Blocks {
 		isHeader := false
@@ -127,23 +150,14 @@ func findMergeLoops(fn *ssa.Function, wcf map[*ssa.Function]bool) ([]*mergeLoop,
 			if _, isPhi := c.(*ssa.Phi); isPhi {
 				continue // a condition computed by && / ||: evaluated from its edges during the simulation
 			}
-			des := ""
-			switch x := c.(type) {
-			case *ssa.Extract:
-				if lk, ok := x.Tuple.(*ssa.Lookup); ok && lk.CommaOk && x.Index == 1 {
-					des = "found"
-				}
-			case *ssa.Call:
-				if callee := x.Call.StaticCallee(); callee != nil && (wcf[callee] || wcf[originOf(callee)]) {
-					des = "changeable"
-				}
-			case *ssa.Parameter:
-				if isBoolType(x.Type()) {
-					des = "remote"
-				}
-			}
+			des := classify(c)
 			if des == "" {
-				return nil, fmt.Sprintf("condition %s in block %d of the loop is none of {key found, item changeable, remote write}", c.Name(), b.Index)
+				return nil, fmt.Sprintf("condition %s in block %d of the loop is not one of the conditions the rule knows", c.Name(), b.Index)
+			}
+			if strings.HasPrefix(des, "!") {
+				// negated form of an atom: register the atom under its positive name with a NOT wrapper handled by sigma below
+				des = des[1:]
+				ml.Negated = append(ml.Negated, c)
 			}
 			ml.Atoms = append(ml.Atoms, c)
 			ml.AtomDes = append(ml.AtomDes, des)
@@ -791,4 +805,157 @@ func hashKeyRule(p *Prog, r *Report, rule string) {
 	})
 	r.Check(rule, name+"|one-separator", len(seps) == 1, p.Pos(keyFn.Pos()), fmt.Sprintf("separator literals used: %v", sortedKeys(seps)))
 	r.Floor(rule, "key-part appends in the key function", n, 2)
+}
+
+// sigmaFor builds the condition valuation of a loop from named atom values
+// (several conditions may carry the same name, e.g. two loads of one nil test).
+func (ml *mergeLoop) sigmaFor(as map[string]bool) map[ssa.Value]bool {
+	neg := map[ssa.Value]bool{}
+	for _, v := range ml.Negated {
+		neg[v] = true
+	}
+	sigma := map[ssa.Value]bool{}
+	for i, a := range ml.Atoms {
+		v := as[ml.AtomDes[i]]
+		if neg[a] {
+			v = !v
+		}
+		sigma[a] = v
+	}
+	return sigma
+}
+
+func (ml *mergeLoop) atomNames() []string {
+	seen := map[string]bool{}
+	var res []string
+	for _, d := range ml.AtomDes {
+		if !seen[d] {
+			seen[d] = true
+			res = append(res, d)
+		}
+	}
+	sort.Strings(res)
+	return res
+}
+
+// deleteStageTable: the delete stage of the update engine, per existing item.
+func deleteStageTable(p *Prog, r *Report, rule string) {
+	r.Rule(rule, "truth table of the delete stage per existing item over {item changeable, remote write, selector present, elements present, selector matches}: an item is appended at most once; it is left out of the result only if it is the addressed item of a selector-only delete that may be written, or the stage reports failure (no item disappears silently); the addressed, writable item of a selector-only delete is left out; failure is reported only for an unchangeable item on a remote write")
+	wcf := writeCheckFns(p)
+	// the delete stage: the unexported callee of model.UpdateList that receives the data of filterDelete
+	var stage *ssa.Function
+	for _, f := range p.RepoFns("model") {
+		if originName(f) != "UpdateList" || f.Signature.Recv() != nil {
+			continue
+		}
+		forEachCall(f, func(site ssa.CallInstruction) {
+			c, ok := site.(*ssa.Call)
+			if !ok || c.Call.StaticCallee() == nil || isExportedFn(originOf(c.Call.StaticCallee())) {
+				return
+			}
+			for _, a := range c.Call.Args {
+				if strings.Contains(Path(a), "param:filterDelete") || strings.Contains(Path(a), "filterDelete.Data()") {
+					if stage == nil || c.Call.StaticCallee().String() < stage.String() {
+						stage = c.Call.StaticCallee()
+					}
+				}
+			}
+		})
+	}
+	if stage == nil || stage.Blocks == nil {
+		r.Undecided(rule, "anchor:delete stage", "", "the stage of model.UpdateList that receives the delete filter's data was not found")
+		return
+	}
+	name := p.StableName(stage)
+	fdType := func(v ssa.Value, field string) bool {
+		// load of <FilterData>.field
+		if u, ok := v.(*ssa.UnOp); ok {
+			if fa, ok := u.X.(*ssa.FieldAddr); ok && fieldOfAddr(fa) != nil && fieldOfAddr(fa).Name() == field && isNamed(derefType(fa.X.Type()), "model", "FilterData") {
+				return true
+			}
+		}
+		return false
+	}
+	loops, why := findAccLoops(stage, func(c ssa.Value) string {
+		switch x := c.(type) {
+		case *ssa.Call:
+			if callee := x.Call.StaticCallee(); callee != nil {
+				if wcf[callee] || wcf[originOf(callee)] {
+					return "changeable"
+				}
+				if originName(callee) == "SelectorMatch" {
+					return "matches"
+				}
+			}
+		case *ssa.Parameter:
+			if isBoolType(x.Type()) {
+				return "remote"
+			}
+		case *ssa.BinOp:
+			if v, trueNil, ok := nilTest(x); ok {
+				for _, f := range []string{"Selector", "Elements"} {
+					if fdType(v, f) {
+						if trueNil {
+							return "!has" + f
+						}
+						return "has" + f
+					}
+				}
+			}
+		}
+		return ""
+	})
+	if why != "" {
+		r.Undecided(rule, name+"|shape", p.Pos(stage.Pos()), why)
+		return
+	}
+	var l *mergeLoop
+	for _, x := range loops {
+		if x.ResPhi != nil && x.OkPhi != nil {
+			l = x
+		}
+	}
+	if l == nil {
+		r.Undecided(rule, name+"|shape", p.Pos(stage.Pos()), "no loop with a result accumulator and a success accumulator")
+		return
+	}
+	names := l.atomNames()
+	nOK := 0
+	for m := 0; m < 1<<uint(len(names)); m++ {
+		as := map[string]bool{}
+		var parts []string
+		for i, a := range names {
+			as[a] = m&(1<<uint(i)) != 0
+			parts = append(parts, fmt.Sprintf("%s=%v", a, as[a]))
+		}
+		if !as["hasSelector"] && !as["hasElements"] {
+			continue // handled before the loop
+		}
+		got := l.simulateIteration(l.sigmaFor(as))
+		mayWrite := as["changeable"] || !as["remote"]
+		addressedDelete := as["hasSelector"] && !as["hasElements"] && as["matches"] && mayWrite
+		var bad []string
+		if got.Undet != "" {
+			bad = append(bad, got.Undet)
+		}
+		if len(got.Appends) > 1 {
+			bad = append(bad, "the item is appended more than once")
+		}
+		if len(got.Appends) == 0 && !got.Cleared && !addressedDelete {
+			bad = append(bad, "the item disappears from the result although it is not the addressed item of a permitted delete and no failure is reported")
+		}
+		if addressedDelete && len(got.Appends) != 0 {
+			bad = append(bad, "the addressed item is kept")
+		}
+		if got.Cleared && (as["changeable"] || !as["remote"]) {
+			bad = append(bad, "failure is reported for an item that may be written")
+		}
+		key := fmt.Sprintf("%s|per-item|%s", name, strings.Join(parts, ","))
+		if len(bad) > 0 {
+			r.Fail(rule, key, p.Pos(stage.Pos()), fmt.Sprintf("does: %s — %s", got, strings.Join(bad, "; ")))
+		} else {
+			nOK++
+		}
+	}
+	r.Check(rule, name+"|table", nOK > 0, p.Pos(stage.Pos()), fmt.Sprintf("%d assignments of %v behave as required", nOK, names))
 }
